@@ -75,11 +75,29 @@ func runC01(c *Ctx) {
 	w := GetATWorld()
 	rng := NewRng(c.Seed)
 	n := c.Budget(300, 10000)
-	for i := 0; i < n; i++ {
+	// branches whose images span the IN-list batch size of the image and undo queries (1000 keys)
+	bigs := []int{1000, 1001}
+	if c.Tier == "thorough" {
+		bigs = []int{999, 1000, 1001, 2000, 2001}
+	}
+	for i := 0; i < n+len(bigs); i++ {
 		r := rng.Fork()
 		cid := fmt.Sprintf("c01-%d", i)
 		o := ATGenOpts{AllowFindings: r.Chance(25), NullableVals: r.Chance(50), BigInts: r.Chance(15), ContinueOnError: r.Chance(40)}
 		cs := genATCase(r, w, cid, o)
+		if i >= n {
+			big := bigs[i-n]
+			cs.Classes = nil
+			cs.Schema = &ATSchema{Table: w.NewTableName("big"), Cols: []ATCol{{Name: "id", Typ: 'i'}, {Name: "c1", Typ: 'i'}}, PK: []int{0}}
+			cs.Rows = nil
+			for k := 0; k < big; k++ {
+				cs.Rows = append(cs.Rows, []ATVal{{K: 'i', I: int64(k + 1)}, {K: 'i', I: int64(k % 7)}})
+			}
+			cs.Locals = []ATLocalTx{
+				{Stmts: []*ATStmt{{Kind: 'U', Sets: []ATSet{{Col: 1, Plus: 1, E: &ATExpr{K: 'l', Val: ATVal{K: 'i', I: 1}}}}, Where: &ATCond{Op: "T"}}}},
+				{Stmts: []*ATStmt{{Kind: 'D', Where: &ATCond{Op: "T"}}}},
+			}
+		}
 		if !c.Want(cid) {
 			continue
 		}
